@@ -524,6 +524,12 @@ type Block struct {
 	// Bind holds extra variables visible to the expressions inside the block's body
 	// (set by the reference dynamic-block expander: the iterator objects).
 	Bind map[string]cty.Value
+	// Unknown marks a block that stands for the result of a dynamic block with an unknown
+	// for_each (set by reference expanders; never rendered).
+	Unknown bool
+	// Phantom marks a block-typed item that yields no block (a dynamic block whose for_each
+	// is empty): it is consumed, left over and label-checked like a block of its type.
+	Phantom bool
 }
 
 // Dyn is a `dynamic "Type" { for_each, iterator, labels, content {} }` block.
